@@ -4,16 +4,7 @@ import functools
 import inspect
 
 
-class Base:
-    pass
-
-
-class D1(Base):
-    pass
-
-
-class D2(Base):
-    pass
+from fxh import Base, D1, D2  # noqa: E402  (one definition only: a second `Base` in another module would collide in stubs)
 
 
 class BadExit(Exception):
